@@ -142,10 +142,42 @@ func checkLine(line, ns string) {
 				if !ok {
 					bad("fields", fmt.Sprintf("got {name=%q type=%s value=%v str=%q rate=%v tags=%q} want %+v", m.Name, typeName(m.Type), m.Value, m.StringValue, m.Rate, []string(m.Tags), *rm))
 				}
+				// the shared lexer hands out recycled metrics whose tag buffers have grown; a parser that has just
+				// started (or whose pool was drained) starts from the configured estimate: same line, fresh lexer
+				if ok && strings.Contains(line, "|#") {
+					for _, est := range []int{0, 1, 3} {
+						fl := &lexer.Lexer{MetricPool: pool.NewMetricPool(est)}
+						fm, _, ferr := fl.Run([]byte(line), ns)
+						if ferr != nil || fm == nil {
+							bad("fields-fresh-lexer", fmt.Sprintf("a fresh lexer (estimated tags %d) rejects the line the shared lexer accepts: %v", est, ferr))
+							break
+						}
+						if !(fm.Name == rm.Name && typeName(fm.Type) == rm.Type && sameF(fm.Rate, rm.Rate) && tagsEq(fm.Tags, rm.Tags)) {
+							bad("fields-fresh-lexer", fmt.Sprintf("a fresh lexer (estimated tags %d) got {name=%q type=%s rate=%v tags=%q} want %+v", est, fm.Name, typeName(fm.Type), fm.Rate, []string(fm.Tags), *rm))
+							break
+						}
+					}
+				}
 			}
 		default:
 			if implAccept {
 				accepted++
+			}
+			// a line the reference leaves open (e.g. a repeated field): what it parses to must still not depend on
+			// the history of the lexer's recycled buffers - a fresh lexer reads the same fields
+			if implAccept && m != nil && strings.Contains(line, "|#") {
+				for _, est := range []int{0, 1, 3} {
+					fl := &lexer.Lexer{MetricPool: pool.NewMetricPool(est)}
+					fm, _, ferr := fl.Run([]byte(line), ns)
+					if ferr != nil || fm == nil {
+						bad("fresh-lexer-differs", fmt.Sprintf("a fresh lexer (estimated tags %d) rejects the line the shared lexer accepts: %v", est, ferr))
+						break
+					}
+					if !(fm.Name == m.Name && fm.Type == m.Type && sameF(fm.Rate, m.Rate) && tagsEq(fm.Tags, m.Tags) && fm.StringValue == m.StringValue && (sameF(fm.Value, m.Value) || m.Type == gostatsd.SET)) {
+						bad("fresh-lexer-differs", fmt.Sprintf("a fresh lexer (estimated tags %d) got {name=%q type=%s value=%v rate=%v tags=%q}, the long-running one {name=%q type=%s value=%v rate=%v tags=%q}", est, fm.Name, typeName(fm.Type), fm.Value, fm.Rate, []string(fm.Tags), m.Name, typeName(m.Type), m.Value, m.Rate, []string(m.Tags)))
+						break
+					}
+				}
 			}
 		}
 	}
